@@ -94,7 +94,7 @@ def run(ctx):
         if thorough:
             # every transcript-bound leaf (not in a query round) x every perturbation; one query round suffices for these (and halves the cost)
             tb = []
-            for li in inv:
+            for li in inventory(ctx, inst, 1):
                 if li["round"] < 0 and li["cls"] != "VD.cap":
                     for kind in KINDS:
                         tb.append({"path": li["path"], "kind": kind, "cls": li["cls"], "sel": li["sel"]})
